@@ -26,56 +26,86 @@ Proof.
   reflexivity.
 Qed.
 
+(** the code stores length_ mod 2^64; reading eight bytes of it never looks above bit 63 *)
+Lemma byte_of_wrap : forall n k, (k + 8 <= 64)%N -> N.land (N.shiftr (wrap 64 n) k) 255 = N.land (N.shiftr n k) 255.
+Proof.
+  intros n k Hk. unfold wrap. change 255%N with (N.ones 8). apply N.bits_inj. intro i.
+  rewrite !N.land_spec, !N.shiftr_spec', N.land_spec.
+  destruct (N.lt_ge_cases i 8) as [Hi|Hi].
+  - rewrite (N.ones_spec_low 64 (i + k)) by lia. rewrite Bool.andb_true_r. reflexivity.
+  - rewrite (N.ones_spec_high 8 i) by lia. rewrite !Bool.andb_false_r. reflexivity.
+Qed.
+
+Lemma store_le_8_wrap : forall n, store_le 8 (wrap 64 n) = store_le 8 n.
+Proof.
+  intros n. unfold store_le. cbn [seq map]. rewrite !byte_of_wrap by (cbn; lia). reflexivity.
+Qed.
+
+Lemma wrap64_small : forall n, (n < 2 ^ 64)%N -> wrap 64 n = n.
+Proof. intros. apply wrap_small. assumption. Qed.
+
 (* ----------------------------------------------------------------------------------------- instances *)
-Definition bits_ok (chunks : list (list N)) : Prop := (8 * N.of_nat (length (concat chunks)) < 2 ^ 64)%N.
+(** Domain of each algorithm, in message BYTES: MD5 has none (RFC 1321 3.2 appends "the low-order 64 bits" of the bit
+    length, and so does the code: length_ wraps modulo 2^64). SHA-1 and SHA-256 are defined by FIPS 180-4 for messages
+    of less than 2^64 bits only. SHA-512 is defined up to 2^128 bits; tlx documents in SHA512::finalize that it
+    supports less than 2^64 bits (the upper half of the length field is zero-filled). *)
+Definition in_domain (a : algo) (nbytes : nat) : Prop :=
+  match a with AMD5 => True | _ => (8 * N.of_nat nbytes < 2 ^ 64)%N end.
+Definition bits_ok (a : algo) (chunks : list (list N)) : Prop := in_domain a (length (concat chunks)).
 
 Theorem md5_chunking_independent : forall junk chunks,
-  length junk = md5_B -> bits_ok chunks -> md5_digest_of junk chunks = Some (md5_spec (concat chunks)).
+  length junk = md5_B -> md5_digest_of junk chunks = Some (md5_spec (concat chunks)).
 Proof.
-  intros junk chunks Hj Hb. unfold md5_digest_of, md5_spec.
+  intros junk chunks Hj. unfold md5_digest_of, md5_spec.
   assert (HBL : md5_B = md5_L + 8) by reflexivity.
   assert (HPL : md5_P <= md5_L) by (cbv; lia).
   assert (HP0 : 0 < md5_P) by (cbv; lia).
-  exact (digest_of_spec st4 md5_B md5_P md5_L md5_compress (store_le 8) md5_iv md5_out (store_le 8) HBL HPL HP0
-           (fun n => store_le_length 8 n) (fun n _ => eq_refl) junk chunks Hj Hb).
+  exact (digest_of_spec st4 md5_B md5_P md5_L md5_compress (store_le 8) md5_iv md5_out (store_le 8) (fun _ => True) HBL HPL HP0
+           (fun n => store_le_length 8 n) (fun n _ => eq_sym (store_le_8_wrap n)) junk chunks Hj I).
 Qed.
 
+Lemma be8_field : forall n, (n < 2 ^ 64)%N -> store_be 8 n = repeat 0%N 0 ++ store_be 8 (wrap 64 n).
+Proof. intros n Hn. rewrite (wrap64_small n Hn). reflexivity. Qed.
+
+Lemma be16_field : forall n, (n < 2 ^ 64)%N -> store_be 16 n = repeat 0%N 8 ++ store_be 8 (wrap 64 n).
+Proof. intros n Hn. rewrite (wrap64_small n Hn). apply store_be_16_of_64. exact Hn. Qed.
+
 Theorem sha1_chunking_independent : forall junk chunks,
-  length junk = sha1_B -> bits_ok chunks -> sha1_digest_of junk chunks = Some (sha1_spec (concat chunks)).
+  length junk = sha1_B -> bits_ok ASHA1 chunks -> sha1_digest_of junk chunks = Some (sha1_spec (concat chunks)).
 Proof.
   intros junk chunks Hj Hb. unfold sha1_digest_of, sha1_spec.
   assert (HBL : sha1_B = sha1_L + 8) by reflexivity.
   assert (HPL : sha1_P <= sha1_L) by (cbv; lia).
   assert (HP0 : 0 < sha1_P) by (cbv; lia).
-  exact (digest_of_spec st5 sha1_B sha1_P sha1_L sha1_compress (store_be 8) sha1_iv sha1_out (store_be 8) HBL HPL HP0
-           (fun n => store_be_length 8 n) (fun n _ => eq_refl) junk chunks Hj Hb).
+  exact (digest_of_spec st5 sha1_B sha1_P sha1_L sha1_compress (store_be 8) sha1_iv sha1_out (store_be 8) (fun n => (n < 2 ^ 64)%N) HBL HPL HP0
+           (fun n => store_be_length 8 n) be8_field junk chunks Hj Hb).
 Qed.
 
 Theorem sha256_chunking_independent : forall junk chunks,
-  length junk = sha256_B -> bits_ok chunks -> sha256_digest_of junk chunks = Some (sha256_spec (concat chunks)).
+  length junk = sha256_B -> bits_ok ASHA256 chunks -> sha256_digest_of junk chunks = Some (sha256_spec (concat chunks)).
 Proof.
   intros junk chunks Hj Hb. unfold sha256_digest_of, sha256_spec.
   assert (HBL : sha256_B = sha256_L + 8) by reflexivity.
   assert (HPL : sha256_P <= sha256_L) by (cbv; lia).
   assert (HP0 : 0 < sha256_P) by (cbv; lia).
-  exact (digest_of_spec st8 sha256_B sha256_P sha256_L sha256_compress (store_be 8) sha256_iv sha256_out (store_be 8) HBL HPL HP0
-           (fun n => store_be_length 8 n) (fun n _ => eq_refl) junk chunks Hj Hb).
+  exact (digest_of_spec st8 sha256_B sha256_P sha256_L sha256_compress (store_be 8) sha256_iv sha256_out (store_be 8) (fun n => (n < 2 ^ 64)%N) HBL HPL HP0
+           (fun n => store_be_length 8 n) be8_field junk chunks Hj Hb).
 Qed.
 
 Theorem sha512_chunking_independent : forall junk chunks,
-  length junk = sha512_B -> bits_ok chunks -> sha512_digest_of junk chunks = Some (sha512_spec (concat chunks)).
+  length junk = sha512_B -> bits_ok ASHA512 chunks -> sha512_digest_of junk chunks = Some (sha512_spec (concat chunks)).
 Proof.
   intros junk chunks Hj Hb. unfold sha512_digest_of, sha512_spec.
   assert (HBL : sha512_B = sha512_L + 8) by reflexivity.
   assert (HPL : sha512_P <= sha512_L) by (cbv; lia).
   assert (HP0 : 0 < sha512_P) by (cbv; lia).
-  exact (digest_of_spec st8 sha512_B sha512_P sha512_L sha512_compress (store_be 8) sha512_iv sha512_out (store_be 16) HBL HPL HP0
-           (fun n => store_be_length 8 n) (fun n Hn => store_be_16_of_64 n Hn) junk chunks Hj Hb).
+  exact (digest_of_spec st8 sha512_B sha512_P sha512_L sha512_compress (store_be 8) sha512_iv sha512_out (store_be 16) (fun n => (n < 2 ^ 64)%N) HBL HPL HP0
+           (fun n => store_be_length 8 n) be16_field junk chunks Hj Hb).
 Qed.
 
 (** all four at once, at the API level *)
 Theorem chunking_independent : forall a junk chunks,
-  length junk = algo_B a -> bits_ok chunks -> digest a junk chunks = Some (spec a (concat chunks)).
+  length junk = algo_B a -> bits_ok a chunks -> digest a junk chunks = Some (spec a (concat chunks)).
 Proof.
   intros a junk chunks Hj Hb. destruct a; cbn [digest spec algo_B] in *.
   - apply md5_chunking_independent; assumption.
@@ -85,7 +115,7 @@ Proof.
 Qed.
 
 Corollary digest_hex_correct : forall a junk chunks,
-  length junk = algo_B a -> bits_ok chunks ->
+  length junk = algo_B a -> bits_ok a chunks ->
   digest_hex a junk chunks = Some (hexdump hex_lc (spec a (concat chunks))) /\
   digest_hex_uc a junk chunks = Some (hexdump hex_uc (spec a (concat chunks))).
 Proof.
@@ -94,7 +124,7 @@ Proof.
 Qed.
 
 Corollary helper_correct : forall a junk msg,
-  length junk = algo_B a -> (8 * N.of_nat (length msg) < 2 ^ 64)%N ->
+  length junk = algo_B a -> in_domain a (length msg) ->
   helper_hex a junk msg = Some (hexdump hex_lc (spec a msg)) /\
   helper_hex_uc a junk msg = Some (hexdump hex_uc (spec a msg)).
 Proof.
@@ -108,12 +138,12 @@ Qed.
 (** two chunkings of the same message give the same digest, whatever buf_ contained *)
 Corollary chunking_irrelevant : forall a junk1 junk2 chunks1 chunks2,
   length junk1 = algo_B a -> length junk2 = algo_B a ->
-  concat chunks1 = concat chunks2 -> bits_ok chunks1 ->
+  concat chunks1 = concat chunks2 -> bits_ok a chunks1 ->
   digest a junk1 chunks1 = digest a junk2 chunks2.
 Proof.
   intros a j1 j2 c1 c2 H1 H2 Hc Hb.
   rewrite (chunking_independent a j1 c1 H1 Hb).
-  assert (Hb2 : bits_ok c2) by (unfold bits_ok in *; rewrite <- Hc; exact Hb).
+  assert (Hb2 : bits_ok a c2) by (unfold bits_ok in *; rewrite <- Hc; exact Hb).
   rewrite (chunking_independent a j2 c2 H2 Hb2), Hc. reflexivity.
 Qed.
 
@@ -189,7 +219,7 @@ Qed.
 
 (** The three output forms and the helper functions, in the usual hexadecimal notation *)
 Theorem api_forms : forall a junk chunks,
-  length junk = algo_B a -> bits_ok chunks ->
+  length junk = algo_B a -> bits_ok a chunks ->
   let d := spec a (concat chunks) in
   digest a junk chunks = Some d /\
   digest_hex a junk chunks = Some (hex_spec lc_digit d) /\
@@ -204,7 +234,7 @@ Proof.
 Qed.
 
 Theorem helper_forms : forall a junk msg,
-  length junk = algo_B a -> (8 * N.of_nat (length msg) < 2 ^ 64)%N ->
+  length junk = algo_B a -> in_domain a (length msg) ->
   helper_hex a junk msg = Some (hex_spec lc_digit (spec a msg)) /\
   helper_hex_uc a junk msg = Some (hex_spec uc_digit (spec a msg)).
 Proof.
